@@ -55,6 +55,8 @@ class C18(Check):
             {"terms": [T("fmmu", 700, 761, True, 1001)], "groups_before": 1},
             {"terms": [T("fmmu", 700, 762, True, 1001)], "groups_before": 1},
             {"terms": [T("fmmu", 0, 0, True, 1001)], "groups_before": 0},
+            # a writing device listed before a reading device of the same terminal
+            {"terms": [dict(T("fmmu", 4, 2, True, 1001), users=[True, False]), dict(T("direct", 3, 5, True, 1002), users=[False, True, False])], "groups_before": 0},
         ]
 
     def gen_cases(self):
@@ -88,6 +90,15 @@ class C18(Check):
                     delta = target - self.need(terms)
                     if terms[i][key] + delta > 0:
                         terms[i][key] += delta
+            for t in terms:
+                if rng.random() < 0.4:
+                    k = rng.randint(2, 3)
+                    users = [rng.random() < 0.5 for _ in range(k)]
+                    if t["rw"] and not any(users):
+                        users[rng.randrange(k)] = True
+                    if not t["rw"]:
+                        users = [False] * k
+                    t["users"] = users
             out.append({"terms": terms, "groups_before": rng.choice([0, 0, 1, 5, 100])})
         return out
 
@@ -98,7 +109,16 @@ class C18(Check):
         for _ in range(case["groups_before"]):
             ec.get_fmmu_addr()
         terms = [make_terminal(ec, s) for s in case["terms"]]
-        sg = SyncGroup(ec, [FakeDevice({t: s["rw"]}) for t, s in zip(terms, case["terms"])])
+        # a terminal may be used by several devices with different access: it is written if ANY of them writes it
+        # ("users": the devices' flags in the order in which the devices are listed; their disjunction is "rw")
+        devs = []
+        for t, s in zip(terms, case["terms"]):
+            devs += [FakeDevice({t: f}) for f in s.get("users", [s["rw"]])]
+        for a, b in case.get("merge", []):
+            # one device using two terminals
+            if a < len(devs) and b < len(devs) and a != b:
+                devs[a].terms.update(devs[b].terms) if not set(devs[a].terms) & set(devs[b].terms) else None
+        sg = SyncGroup(ec, devs)
         try:
             sg.allocate()
         except OverflowError:
@@ -231,7 +251,7 @@ class C18(Check):
 
     def rule(self):
         return ("terminal sets of 1-12 terminals: FMMU / direct / Aerotech-style allocators, in/out sizes 0..800 (15% zero; 25% of sets sized to land near the "
-                "1500-byte limit), read-write flags, 0..100 earlier sync groups on the same master; non-trivial = at least two regions allocated")
+                "1500-byte limit), read-write flags (40% of the terminals are used by 2-3 devices with different access, the terminal is written if any of them writes), 0..100 earlier sync groups on the same master; non-trivial = at least two regions allocated")
 
     def distribution(self, cases, observed):
         d = {"rejected": 0, "terminals": 0, "aero": 0, "direct": 0, "fmmu": 0}
